@@ -419,6 +419,64 @@ func (c13) Gen(r *Rng, tier string, emit func(string, Tok)) {
 	if psiDescStub {
 		note("descriptor stub in place: %d checksum-repaired mutations kept, %d dropped (typed descriptor accepted, or panic)", kept, dropped)
 	}
+	// 10. typed descriptors (the 23 typed tags, unknown and user-defined ones, zero-item bodies) in every descriptor loop
+	// of the five table types that have one, reference encoded (C13_parse_*_typed): model and implementation must decode
+	// them alike wherever the loop lies in the section; the oracle compares the table structure (tags and lengths of the
+	// typed entries) and leaves the typed bodies to C14
+	if !psiDescStub {
+		for k := 0; k < 200*scale; k++ {
+			s := psiGens[1+k%5](r, 0)
+			typed := func() []*astits.Descriptor {
+				var out []*astits.Descriptor
+				for _, d := range c14GenLoop(r, 6, 110) {
+					if c14WfDesc(d) && c14OnlyBody(d) {
+						out = append(out, c14ExpectParsed(d))
+					}
+				}
+				return out
+			}
+			x := s.Syntax.Data
+			switch {
+			case x.PMT != nil:
+				x.PMT.ProgramDescriptors = typed()
+				if len(x.PMT.ElementaryStreams) > 3 {
+					x.PMT.ElementaryStreams = x.PMT.ElementaryStreams[:3]
+				}
+				for _, es := range x.PMT.ElementaryStreams {
+					es.ElementaryStreamDescriptors = typed()
+				}
+			case x.SDT != nil:
+				if len(x.SDT.Services) > 3 {
+					x.SDT.Services = x.SDT.Services[:3]
+				}
+				for _, sv := range x.SDT.Services {
+					sv.Descriptors = typed()
+				}
+			case x.NIT != nil:
+				x.NIT.NetworkDescriptors = typed()
+				if len(x.NIT.TransportStreams) > 3 {
+					x.NIT.TransportStreams = x.NIT.TransportStreams[:3]
+				}
+				for _, ts := range x.NIT.TransportStreams {
+					ts.TransportDescriptors = typed()
+				}
+			case x.EIT != nil:
+				if len(x.EIT.Events) > 3 {
+					x.EIT.Events = x.EIT.Events[:3]
+				}
+				for _, e := range x.EIT.Events {
+					e.Descriptors = typed()
+				}
+			case x.TOT != nil:
+				x.TOT.Descriptors = typed()
+			}
+			bs := psiRefEncodeUnit(psiUnit(s), nil)
+			if len(bs) > 1000 {
+				continue
+			}
+			emit("typed-desc-"+psiGenNames[1+k%5], L(I(1), B(bs)))
+		}
+	}
 }
 
 func (c13) Run(c Tok) Tok {
